@@ -103,6 +103,30 @@ func hJSONUnmarshal(ex *Exec, c *frame, fn *ssa.Function, a []Value) Value {
 			if !ok {
 				return ex.newError("json: cannot unmarshal value into Go value of type " + pt.Elem().String())
 			}
+			// documented reuse of the target: a non-nil map keeps its existing entries (the decoded ones are
+			// stored over them); a struct keeps the fields the document does not mention
+			switch pt.Elem().Underlying().(type) {
+			case *types.Map:
+				if cur, isMap := ptr.V.(*Map); isMap && cur != nil {
+					if dm, _ := nv.(*Map); dm != nil {
+						for _, e := range dm.live() {
+							ex.mapUpdate(cur, e.K, e.V, c)
+						}
+						return Iface{}
+					}
+				}
+			case *types.Struct:
+				if cur, isStruct := ptr.V.(*Struct); isStruct && cur != nil {
+					if iv := ex.forceIface(val); iv.T != nil {
+						if m, isMap := iv.V.(*Map); isMap {
+							keep := copyVal(cur).(*Struct)
+							if ex.decodeStructFrom(pt.Elem().Underlying().(*types.Struct), keep, m, c, 0) {
+								nv = keep
+							}
+						}
+					}
+				}
+			}
 			ex.store(ptr, nv, c)
 			return Iface{}
 		}
